@@ -324,11 +324,8 @@ func (x *Exec) Apply(ev Event) *Viol { //nolint:gocyclo,cyclop,maintidx,gocognit
 			// the relay socket refuses to be closed once (a custom generator's conn may): the allocation ends all the same
 			if failing = w.Net.UDPAt(a.Relay.String()); failing != nil {
 				failing.CloseErr = errors.New("vtx: injected close error")
-				defer func() {
-					failing.CloseErr = nil
-					_ = failing.Close() // ... and the harness releases what the library could not
-					synctest.Wait()
-				}()
+				// what the library could not close is released by the harness when the world ends (World.CloseServer)
+				w.Unclosable = append(w.Unclosable, failing)
 			}
 		}
 		res := c.Request(wire.Refresh, nil, func(b *wire.B) {
